@@ -1036,7 +1036,9 @@ def stream_e2e_cde(seed, tier, workdir, stream):
         if i % 3 == 0:
             twin, edits = irrelevant_edits(r, doc, opts, info, names=True)
         cases.append({"doc": doc, "opts": opts, "info": info, "rooms": rooms, "threads": r.choice([1, 1, 2, 4]), "twin": twin,
-                      "prf": rooms is not None and r.random() < 0.6})
+                      # (the field may be asked for without any room list: there is nothing to write into it then)
+                      "prf": (rooms is not None and r.random() < 0.6) or (rooms is None and i % 5 == 2),
+                      "pair17": rooms is None and i % 5 == 2})
     return cases
 
 
@@ -1079,6 +1081,27 @@ def lines_e2e_cde(cases, workdir, stream, binary):
             rc, so, se, to = run_bin(binary, cde_args(c["opts"], c["rooms"], c["threads"]) + rep + prf + [inp, outp])
             bad = to or rc not in (0, 1, 65) or "panicked" in se
             out.append(line("direct", ["C10", "C15"], ok=not bad, what=f"exit {rc} timeout {to} stderr tail: {se[-300:]}", case=i, stream=stream, nontrivial=False))
+            if c.get("pair17"):
+                # C17 through the binary: a room list that cannot bind (as many rooms as courses, each larger than the
+                # event) gives the verdict of the run without rooms and, with one worker, the same file
+                big = [100000] * max(1, len(c["doc"]["courses"]))
+                outs = []
+                outp17 = outp + ".17"
+                for rooms_ in (None, big):
+                    if os.path.exists(outp17):
+                        os.remove(outp17)
+                    rcx, sox, sex, tox = run_bin(binary, cde_args(c["opts"], rooms_, 1) + prf + [inp, outp17])
+                    filex = None
+                    if rcx == 0:
+                        try:
+                            jx = json.load(open(outp17, encoding="utf-8"))
+                            filex = (jx.get("registrations"), {k: v.get("segments") for k, v in jx.get("courses", {}).items()})
+                        except Exception as e:
+                            filex = f"unreadable: {e}"
+                    outs.append((rcx, tox, filex))
+                same17 = outs[0] == outs[1] and not outs[0][1]
+                out.append(line("direct", ["C17", "C10"], ok=same17, what=f"one worker, without rooms: exit {outs[0][0]}; with a room list that cannot bind: exit {outs[1][0]}; files {'equal' if outs[0][2] == outs[1][2] else 'DIFFERENT'}",
+                                case=i, stream=stream, feat=["pair17"]))
             if rc == 65 and "only possible with 1 or more participants" in se:
                 continue
             if rc == 65:
@@ -1391,7 +1414,7 @@ def lines_cli_simple(cases, workdir, stream, binary):
                 if a is not None:
                     it = inst_text(c["doc"], c["rooms"])
                     q = res["quality"]
-                    out.append(line("spec", ["C01", "C06", "C08"], "A", f"{it}#{fmt_assign(a)}", f"valid=true hard=true score={q.get('solution_score')} room=true", case=i, stream=stream))
+                    out.append(line("spec", ["C01", "C06", "C08", "C02"], "A", f"{it}#{fmt_assign(a)}", f"valid=true hard=true score={q.get('solution_score')} room=true", case=i, stream=stream))
                     out.append(line("spec", ["C08"], "Q", f"{it}#{fmt_assign(a)}", "QUALITY", case=i, stream=stream,
                                     what=json.dumps({"q": q})))
                     pr = quality_log_problems(parse_log(se), q)
